@@ -866,8 +866,10 @@ void *__wrap_calloc(size_t a, size_t b)
   led_add(p, a * b);
   return p;
 }
+int sk_fail_next_realloc; /* set by the driver: the next realloc fails (allocation failure at a chosen growth step) */
 void *__wrap_realloc(void *q, size_t n)
 {
+  if (sk_fail_next_realloc) { sk_fail_next_realloc = 0; errno = ENOMEM; return NULL; }
   if (afault()) { errno = ENOMEM; return NULL; }
   int had = q ? led_del(q) : 0;
   void *p = __real_realloc(q, n);
